@@ -264,6 +264,11 @@ def check_caches(ctx, r, cg, tag):
                                 "while one built later gets the new one (verdict depends on history)")
         for x in walk_scope(f.node):
             if isinstance(x, ast.Return) and not isinstance(x.value, ast.Tuple) and x.value is not None and mentions(x.value, tainted):
+                if isinstance(x.value, ast.Call) and m.resolve_call(f, x.value).kind == "class":
+                    # a record built from the pieces: which field the global reaches, and what the caller does with that
+                    # field, is not followed
+                    raise AnalysisError(f"{tag}: {f.qualname} returns `{short(x.value, 50)}`; whether the run-time-mutable global(s) {sorted(names)} reach anything but the "
+                                        "display name of the annotation class is not followed through that record")
                 bad = True
                 ctx.bad(tag, f, x, f"the run-time-mutable global(s) {sorted(names)} flow into the memoised result")
         if not bad:
